@@ -11,7 +11,7 @@ PROPERTY = "C09"
 LEVEL = "exploration"
 RULE = (
     "A history = sequence (<= 10 quick / <= 16 thorough) of driver operations {enter overlay k, leave overlay, create "
-    "generator, next, send, close, drop+gc, call plain g from the driver, and the atomic compounds exhaust / "
+    "generator, next, send, throw (answered by a value inside a delegation or ending the generator), close, drop+gc, call plain g from the driver, and the atomic compounds exhaust / "
     "start-and-close / create-and-drop / zip-two-generators} over two instrumented generators whose bodies call g, "
     "run with the driver at top level or inside an instrumented outer() with overlays entered before it.  After "
     "every step the monitor compares HandlerCollection.current (identity of accumulator objects) with a model in "
@@ -60,7 +60,11 @@ def gen(n):
 def sub(n):
     for k in range(n):
         w2 = g(k * 100)
-        yield w2
+        try:
+            yield w2
+        except ValueError:
+            # the delegated-to generator answers a thrown exception with another value
+            yield w2 + 7
 
 def gen2(n):
     tot = 0
@@ -80,7 +84,7 @@ def outer(cb):
 SELECTORS = ["g > a", "gen > g > a", "gen2 > g > a", "outer > g > a", "gen(i) > g > a", "gen(!y)", "gen2 > w"]
 # expectation for a driver call of g, by selector index: 1 event / 0 events / 'outer'
 EXPECT = {0: "one", 1: "none", 2: "none", 3: "outer", 4: "none", 5: "none", 6: "none"}
-SUSPENDING = {"mk", "next", "send", "close", "drop", "zip"}
+SUSPENDING = {"mk", "next", "send", "close", "drop", "zip", "throw", "mk_thrown"}
 
 
 def load(scratch, tag):
@@ -112,14 +116,20 @@ def gen_history(rnd, length, atomic_only):
                 ops.append(["mk", rnd.choice(["gen", "gen2"]), rnd.randint(1, 3)])
             elif k < 0.5:
                 ops.append(["next", rnd.randrange(4)])
-            elif k < 0.6:
+            elif k < 0.56:
                 ops.append(["send", rnd.randrange(4), rnd.randint(5, 9)])
+            elif k < 0.6:
+                ops.append(["throw", rnd.randrange(4)])
             elif k < 0.75:
                 ops.append(["close", rnd.randrange(4)])
             elif k < 0.85:
                 ops.append(["drop", rnd.randrange(4)])
             elif k < 0.9:
                 ops.append(["zip", rnd.randint(1, 3), rnd.randint(1, 3)])
+            elif k < 0.95:
+                # a generator taken straight into its delegation and thrown into there (the
+                # sub-generator answers with a value): it stays suspended for the later steps
+                ops.append(["mk_thrown"])
             else:
                 ops.append([rnd.choice(["exhaust", "startclose", "mkdrop"]), rnd.choice(["gen", "gen2"]), rnd.randint(0, 3)])
     return ops
@@ -197,7 +207,7 @@ def run_history(ns, placement, pre, ops, res):
                 elif kind == "mk":
                     gens.append(ns[op[1]](op[2]))
                     info["genops"] += 1
-                elif kind in ("next", "send", "close", "drop"):
+                elif kind in ("next", "send", "close", "drop", "throw"):
                     live = [i for i, x in enumerate(gens) if x is not None]
                     if not live:
                         continue
@@ -220,6 +230,18 @@ def run_history(ns, placement, pre, ops, res):
                                 started.add(i)
                             info["suspended_seen"] = True
                         except StopIteration:
+                            gens[i] = None
+                    elif kind == "throw":
+                        # ends the generator unless it is suspended inside sub(), which recovers
+                        try:
+                            if i in started:
+                                gobj.throw(ValueError("thrown by the driver"))
+                                info["suspended_seen"] = True
+                                info["throws_answered"] = info.get("throws_answered", 0) + 1
+                            else:
+                                next(gobj)
+                                started.add(i)
+                        except (StopIteration, ValueError):
                             gens[i] = None
                     elif kind == "close":
                         gobj.close()
@@ -248,6 +270,15 @@ def run_history(ns, placement, pre, ops, res):
                     gobj = ns[op[1]](op[2])
                     del gobj
                     gc.collect()
+                elif kind == "mk_thrown":
+                    info["genops"] += 1
+                    gobj = ns["gen2"](0)
+                    next(gobj)
+                    gobj.throw(ValueError("thrown by the driver"))
+                    gens.append(gobj)
+                    started.add(len(gens) - 1)
+                    info["suspended_seen"] = True
+                    info["throws_answered"] = info.get("throws_answered", 0) + 1
                 elif kind == "mk_unstarted":
                     info["genops"] += 1
                     gens.append(ns[op[1]](op[2]))
@@ -338,6 +369,8 @@ def run_shard(spec):
             res.nontrivial_case([placement, pre, ops])
         if info["suspended_seen"]:
             res.count("histories_with_suspension")
+        if info.get("throws_answered"):
+            res.count("throws_answered_by_a_value", info["throws_answered"])
         res.count("steps", len(ops))
         if n % 400 == 0:
             res.sample(case)
